@@ -1392,7 +1392,7 @@ def _run_cli_worker(world: World) -> None:
     try:
         # the command line of `taskiq worker`, parsed by the real argument parser
         argv = ["sim:broker", "--receiver", "sim:receiver", "--no-configure-logging", "--workers", "1", "--shutdown-timeout", "5",
-                "--max-async-tasks", str(cfg.get("A") or 0), "--max-prefetch", str(cfg.get("P", 0)),
+                "--max-async-tasks", str(cfg.get("A") or cfg.get("A_raw") or 0), "--max-prefetch", str(cfg.get("P", 0)),
                 "--hardkill-count", str(cfg.get("hardkill_count", 3))]
         if not cfg.get("validate_params", True):
             argv.append("--no-parse")
@@ -1439,7 +1439,7 @@ def start_worker(world: World, w: int) -> None:
         world.rec("listen_start", None, w=w, gen=gen)
         try:
             await api_mod.run_receiver_task(
-                br, receiver_cls=RecReceiver, validate_params=cfg.get("validate_params", True), max_async_tasks=cfg.get("A") or 0,
+                br, receiver_cls=RecReceiver, validate_params=cfg.get("validate_params", True), max_async_tasks=cfg.get("A") or cfg.get("A_raw") or 0,
                 max_prefetch=cfg.get("P", 0), propagate_exceptions=cfg.get("propagate", True), run_startup=False,
                 ack_time=AcknowledgeType(cfg["ack_type"]) if cfg.get("ack_type") else None,
                 sync_workers=cfg.get("pool_size"),
@@ -1464,7 +1464,7 @@ def start_worker(world: World, w: int) -> None:
             broker=br,
             executor=SimExecutor(world),
             validate_params=cfg.get("validate_params", True),
-            max_async_tasks=cfg.get("A"),
+            max_async_tasks=cfg.get("A") if cfg.get("A") is not None else cfg.get("A_raw"),
             max_prefetch=cfg.get("P", 0),
             propagate_exceptions=cfg.get("propagate", True),
             run_startup=False,
